@@ -411,6 +411,7 @@ func familySched(t *testing.T) {
 	coldBurst()
 	refreshBurst()
 	rotationOverlap()
+	staleKeyBurst()
 	T.finish()
 }
 
@@ -874,6 +875,57 @@ func rotationOverlap() {
 				M{"before_withdrawal": before, "held_request": c1, "refetching_request": c2, "afterwards": after, "served_alone": solo},
 				M{"family": "sched", "rotationOverlap": true, "what": "X logs in under key k1, Y under k2; a refresh of the key set is due; X's request fetches it and is held at its key conversion; the provider withdraws k1 and the key cache runs out; Y's request refetches; X's request is released; X's next request is compared with the same request on a fresh instance"})
 			return
+		}
+	}
+}
+
+// staleKeyBurst (C17, C05): right after a restart with a new session key, every active browser presents cookies made under the old
+// key - at the same moment, to an instance that has served nothing yet. Each is answered with a login redirect and new cookies;
+// the process survives.
+func staleKeyBurst() {
+	p := newProvider(keys()["p256a"])
+	old := newInstance(p, &down{}, func(c *oidc.Config) { c.SessionEncryptionKey = otherSessKeys[2] })
+	n := 12
+	jars := make([]jar, n)
+	for u := range jars {
+		jars[u] = jar{}
+		if !simpleLoginAs(old, p, jars[u], fmt.Sprintf("user%d@example.com", u)) {
+			return
+		}
+	}
+	rounds := T.size(60, 400)
+	for round := 0; round < rounds; round++ {
+		h, err := oidc.New(nil, &down{}, baseConfig(p), "verif") // (requests wait for its initialisation and are released together)
+		if err != nil {
+			return
+		}
+		codes := make([]int, n)
+		var wg sync.WaitGroup
+		for u := 0; u < n; u++ {
+			wg.Add(1)
+			go func(u int) {
+				defer wg.Done()
+				defer func() {
+					if recover() != nil {
+						codes[u] = -1
+					}
+				}()
+				req := httptest.NewRequest("GET", fmt.Sprintf("http://app.test/u%d", u), nil)
+				jars[u].addTo(req)
+				rec := httptest.NewRecorder()
+				h.ServeHTTP(rec, req)
+				codes[u] = rec.Code
+			}(u)
+		}
+		wg.Wait()
+		T.statN("sched.stale-key-burst.requests", n)
+		for u := range codes {
+			if codes[u] != 302 {
+				rp := M{"family": "sched", "staleKeyBurst": true, "what": "12 browsers hold sessions made under another session key; a freshly built instance is sent one request of each at the same moment"}
+				T.oracle("C17", "cookies made under a session key that is no longer configured are not answered with a login redirect when several such requests arrive together", M{"statuses": codes}, rp)
+				T.oracle("C05", "a request is answered differently because others are in flight (cookies under an old key, fresh instance)", M{"statuses": codes}, rp)
+				return
+			}
 		}
 	}
 }
